@@ -1375,6 +1375,61 @@ def gen_router_cert():
     write_if_changed("RouterCert.lean", "\n".join(lines))
 
 
+def gen_recv_cert():
+    """C14 (drop at the failing layer): constants and literal sites of the receive path
+    `PciSession::receive -> Ipv4::demux -> Udp::demux / Tcp::demux` -> Generated/RecvCert.lean.
+    Fails closed: every error branch the composed model (Model/RecvPath.lean) mirrors must be there
+    in one of the shapes named here."""
+    P = os.path.join(CORE, "protocols")
+    lines = ["-- GENERATED from protocols/{ipv4,udp,tcp}.rs, pci/pci_session.rs, message.rs by tools/extract.py; do not edit",
+             "namespace Elvis.Gen.Recv"]
+
+    def const(lean, value, doc):
+        lines.append("/-- %s -/" % doc)
+        lines.append("def %s : Nat := %d" % (lean, value))
+
+    # ---- tcp.rs
+    p = os.path.join(P, "tcp.rs")
+    src = strip_comments(read(p))
+    const("tcpDemuxStrip", _int(_one(r"message\.remove_front\((\w+)\);", src, "Tcp::demux header strip", p)),
+          "`message.remove_front(N)` in `Tcp::demux`")
+    _one(r"let ipv4_header = control\s*\.get::<Ipv4Header>\(\)\s*\.ok_or\(DemuxError::(MissingContext)\)\?;", src, "Tcp::demux missing IPv4 context", p)
+    _one(r"TcpHeader::from_bytes\(\s*message\.iter\(\),\s*message\.len\(\),\s*ipv4_header\.source,\s*ipv4_header\.destination,\s*\)\s*\.map_err\(\|_\| DemuxError::(Header)\)\?;", src, "Tcp::demux decode failure -> DemuxError::Header", p)
+    _one(r"address: Ipv4Address::(CURRENT_NETWORK),\s*port: endpoints\.local\.port,", src, "Tcp::demux wildcard listen key", p)
+    _one(r"return Err\(DemuxError::(MissingSession)\)\?;", src, "Tcp::demux closed path result", p)
+    if len(re.findall(r"\.map_err\(\|_\| DemuxError::Other\)\?;", src)) != 2:
+        raise ExtractError("Tcp::demux: expected two reply sends mapped to DemuxError::Other")
+    _one(r"\.ok_or\(DemuxError::(MissingProtocol)\(upstream\)\)\?", src, "Tcp::demux upstream of the listen binding", p)
+    tcp_no = _int(_one(r"TCP = (\d+),", strip_comments(read(os.path.join(P, "ipv4.rs"))), "ProtocolNumber::TCP", p))
+    const("ipv4ProtoTcp", tcp_no, "`ProtocolNumber::TCP`")
+    # ---- udp.rs
+    p = os.path.join(P, "udp.rs")
+    src = strip_comments(read(p))
+    _one(r"let ipv4_header = \*control\s*\.get::<Ipv4Header>\(\)\s*\.ok_or\(DemuxError::(MissingContext)\)\?;", src, "Udp::demux missing IPv4 context", p)
+    _one(r"UdpHeader::from_bytes_ipv4\(\s*message\.iter\(\),\s*message\.len\(\),\s*ipv4_header\.source,\s*ipv4_header\.destination,\s*\) \{\s*Ok\(header\) => header,\s*Err\(e\) => \{\s*tracing::error!\(\"\{\}\", e\);\s*Err\(DemuxError::(Header)\)\?", src, "Udp::demux decode failure -> DemuxError::Header", p)
+    # ---- ipv4.rs
+    p = os.path.join(P, "ipv4.rs")
+    src = strip_comments(read(p))
+    _one(r"let header = match Ipv4Header::from_bytes\(message\.iter\(\)\) \{\s*Ok\(header\) => header,\s*Err\(e\) => \{\s*tracing::error!\(\"\{\}\", e\);\s*Err\(DemuxError::(Header)\)\?", src, "Ipv4::demux decode failure -> DemuxError::Header", p)
+    const("fragGuardWord", _int(_one(r"let header_octets = header\.ihl as u32 \* (\w+);", src, "Ipv4::demux header_octets", p)),
+          "`header.ihl as u32 * N` (fragment guard)")
+    _one(r"let data_octets = header\.total_length as u32 (-) header_octets;", src, "Ipv4::demux data_octets", p)
+    const("fragGuardUnit", _int(_one(r"if header\.fragment_offset as u32 \* (\w+) \+ data_octets > u16::MAX as u32 - header_octets \{", src, "Ipv4::demux fragment guard", p)),
+          "`header.fragment_offset as u32 * N` (fragment guard)")
+    _one(r"tracing::error!\(\"Fragment extends beyond the maximum datagram length\"\);\s*Err\(DemuxError::(Header)\)\?\s*\}", src, "Ipv4::demux fragment guard result", p)
+    _one(r"let pci_demux_info = control\s*\.get::<pci::DemuxInfo>\(\)\s*\.ok_or\(DemuxError::(MissingContext)\)\?;", src, "Ipv4::demux link context", p)
+    # ---- pci_session.rs: the link context is inserted before any protocol is called
+    p = os.path.join(P, "pci", "pci_session.rs")
+    src = strip_comments(read(p))
+    _one(r"control\.insert\(pci_demux_info\);\s*let protocols = [^;]*;\s*let protocol = match protocols\.get\(delivery\.protocol\) \{\s*Some\(protocol\) => protocol,\s*None => \{[\s\S]{0,200}?Err\(ReceiveError::(Protocol)\(delivery\.protocol\)\)\?", src, "PciSession::receive protocol lookup", p)
+    # ---- message.rs: what remove_front demands
+    p = os.path.join(CORE, "message.rs")
+    src = strip_comments(read(p))
+    _one(r"pub fn remove_front\(&mut self, len: usize\) \{\s*assert!\(len (<=) self\.len\);", src, "Message::remove_front precondition", p)
+    lines += ["end Elvis.Gen.Recv", ""]
+    write_if_changed("RecvCert.lean", "\n".join(lines))
+
+
 def main():
     check_message_immutability()
     gen_consts()
@@ -1389,6 +1444,7 @@ def main():
     extract_modcmp_kernels()
     gen_ndl_cert()
     gen_router_cert()
+    gen_recv_cert()
 
 
 if __name__ == "__main__":
